@@ -48,7 +48,7 @@ TRUSTED = [
 ASSUMPTIONS = [
     "strings are sequences of code points (Lean List Char = Python str indexing)",
     "the statement is conditional on acceptance: texts the parser refuses (any exception) are counted in the distribution, not judged",
-    "models without any ETA are excluded from the no-op monitor (update_source adds a dummy ETA by design)",
+    "models without any ETA are excluded from the model-level monitors (update_source adds a dummy ETA by design)",
     "dataset reading is avoided (missing dataset file): update_source's dataset branch is outside this check",
 ]
 
@@ -449,6 +449,15 @@ def run_record_ops(cs, rng, drv, k, mon, tags):
     wire = [[enc(str(r.name)), i] for i, r in enumerate(recs)]
     strs = [str(r) for r in recs]
 
+    # get_records: every record name of the stream plus two absent ones, problem numbers -1 .. 2
+    for nm in sorted({str(r.name) for r in recs} | {"SIZES", "THETA"}):
+        for pno in (0, 1, 2, -1):
+            code = [str(ids[id(r)]) for r in cs.get_records(nm, pno)]
+            tags.append("op:get_records")
+            if drv is not None:
+                m = drv.ask(["getrecords", wire, enc(nm), pno])
+                if m != code:
+                    k.append(f"get_records({nm!r}, {pno}): model {m} code {code} (records {[r.name for r in recs]})")
     for _ in range(3):
         op = rng.choice(["insert", "insert", "insert-at", "replace_all", "remove", "replace"])
         news = [factory.create_record(rng.choice(NEW_RECORDS)) for _ in range(rng.randint(1, 2))]
@@ -565,6 +574,22 @@ def change_class(kind, old_recs, new_recs):
         if len(o) == len(n) and all(a == b or (_theta_norm(a) == _theta_norm(b) and len(r) >= 2)
                                     for a, b, r in zip(o, n, [r for r in old_recs if _kind(r) == "THETA"])):
             return "respells-bounds-of-multi-theta-record"
+    if kind == "ABBREVIATED":
+        # known witness class: only records carrying a REPLACE option are regenerated; every other
+        # $ABBREVIATED record must reappear unchanged and in order
+        def is_repl(text):
+            body = re.sub(r";[^\n]*", "", text.upper())
+            return re.search(r"(?<![A-Z0-9_])REP(L(A(C(E)?)?)?)?(?![A-Z0-9_])", body) is not None
+        o = [str(r) for r in old_recs if _kind(r) == "ABBREVIATED"]
+        n = [str(r) for r in new_recs if _kind(r) == "ABBREVIATED"]
+        plain = [x for x in o if not is_repl(x)]
+        rest = list(n)
+        ok = any(is_repl(x) for x in o) and _is_subseq(plain, n)
+        for x in plain:
+            if x in rest:
+                rest.remove(x)
+        if ok and all(is_repl(x) for x in rest):
+            return "rewrites-abbr-replace-records"
     if kind == "PK":
         import difflib
         o = "".join(str(r) for r in old_recs if _kind(r) == "PK").splitlines()
@@ -602,7 +627,9 @@ def run_model(case, drv):
     # ---- no-op regeneration --------------------------------------------------------------
     noop_ok = False
     if not model.random_variables.etas:
-        tags.append("model-without-etas(skipped-noop)")
+        # update_source adds DUMMYETA / $OMEGA 0 FIX by design: neither the no-op nor the frame monitors apply
+        tags.append("model-without-etas(skipped)")
+        return {"k": k, "mon": mon, "tags": tags, "nontrivial": False}
     else:
         try:
             code = model.update_source().code
@@ -622,7 +649,7 @@ def run_model(case, drv):
         except Exception as e:
             tags.append("noop-raises:" + _exc(e))
     # ---- single edits ---------------------------------------------------------------------
-    for edit in ("theta", "omega", "sigma", "stmt"):
+    for edit in ("theta", "omega", "sigma", "stmt", "desc"):
         try:
             res = apply_edit(model, edit, rng)
         except Exception as e:
@@ -649,10 +676,33 @@ def run_model(case, drv):
             mon.append({"cls": f"frame-{edit}-" + change_class(kd, old_recs, new_recs),
                         "what": f"after {what} the ${kd} records (unrelated kind) changed; " + first_diff(T, code2)})
         # comments and verbatim lines of the edited kinds survive, in order
-        old_cv = [c for r in old_recs if _kind(r) in allowed for c in _comments_and_verbatim(str(r))]
-        new_cv = [c for r in new_recs if _kind(r) in allowed for c in _comments_and_verbatim(str(r))]
+        # (for $PROBLEM the first line is the title itself, `;` included: it expresses the edited component)
+        body = (lambda r: str(r).partition("\n")[2]) if edit == "desc" else str
+        old_cv = [c for r in old_recs if _kind(r) in allowed for c in _comments_and_verbatim(body(r))]
+        new_cv = [c for r in new_recs if _kind(r) in allowed for c in _comments_and_verbatim(body(r))]
         if not _is_subseq(old_cv, new_cv):
-            mon.append({"cls": f"frame-{edit}-loses-comment",
+            cls = f"frame-{edit}-loses-comment"
+            if edit == "stmt" and len(model.dependent_variables) > 1:
+                # narrower witness class: every lost comment stood inside an IF (DVID…) … ENDIF block of the old code
+                it = iter(new_cv)
+                lost = [c for c in old_cv if not any(c == y for y in it)]
+                inside = []
+                for r in old_recs:
+                    if _kind(r) in allowed:
+                        depth = 0
+                        for line in str(r).splitlines():
+                            code_part = line.split(";")[0].upper()
+                            if depth == 0 and re.match(r"\s*IF\s*\(\s*DVID\b.*THEN\s*$", code_part):
+                                depth = 1
+                            elif depth and re.match(r"\s*IF\b.*THEN\s*$", code_part):
+                                depth += 1
+                            if depth:
+                                inside += _comments_and_verbatim(line)
+                            if depth and re.match(r"\s*END\s*IF\b", code_part):
+                                depth -= 1
+                if lost and all(c in inside for c in lost):
+                    cls = "frame-stmt-dvid-block-regenerated-loses-comment"
+            mon.append({"cls": cls,
                         "what": f"after {what} a comment or verbatim line of the edited records was lost or reordered: {old_cv} -> {new_cv}"})
         if code2 == T:
             mon.append({"cls": f"edit-{edit}-not-written", "what": f"{what} did not change the code"})
@@ -691,6 +741,11 @@ def apply_edit(model, edit, rng):
             return None
         m2 = model.replace(parameters=params.set_initial_estimates({p.name: new}))
         return m2, allowed, f"setting the initial estimate of {p.name} to {new}"
+    if edit == "desc":
+        new = "changed description c03"
+        if model.description == new:
+            return None
+        return model.replace(description=new), {"PROBLEM"}, "setting the description"
     # statement edit: append one assignment at the end
     sts = model.statements
     last = sts[-1]
